@@ -160,6 +160,9 @@ def Conn.pending (c : Conn) : Bytes :=
 /-- a connection on which exactly the binary messages `msgs` have arrived -/
 def Conn.ofMsgs (msgs : List Bytes) : Conn := { inq := msgs.map fun p => .msg binaryMessage p true }
 
+/-- the far end of a leg on which the frames `fs` have been written -/
+def Conn.ofFrames (fs : List Frame) : Conn := { inq := fs }
+
 /-- a sequence of `Read` calls (buffer size, inner-reader choice), continuing after errors -/
 def run (c : Conn) : List (Nat × Choice) → List Res × Conn
   | [] => ([], c)
